@@ -37,6 +37,7 @@ func checkC01(c *Ctx, r *Report) {
 	txtEmptyList(c, r, "C01.R1.txt-empty", "an RDATA-less TXT-like record (the RFC 2136 class-ANY form) is packed with RDLENGTH 1 and a lone zero octet: unpack followed by pack changes the octets")
 	sideStructOffsets(c, r, "C01.R1.side-offsets", "the octets produced for the structure stop before that field")
 	resetOnConvert(c, r, "C01.R2.rfc3597-reset", "a reused RFC3597 value keeps the Rdata of the record converted before: an RDATA-less record is then packed with the previous record's RDATA")
+	borrow(c, r, checkC16, "C16.R2.no-buffer-alias", "C01.R4.no-buffer-alias", 100, "an unpacked record holds copies of the octets it was decoded from, not slices of the caller's buffer", nil, "the unpacked message equals the original only until the caller reuses its buffer; after that its addresses and opaque fields are whatever the buffer holds")
 }
 
 // sideStructs are the hand-written wire-format structs with their packers.
